@@ -95,9 +95,8 @@ func openFromImage(tr *kit.Tree, img kvm.Image) (n *kit.Node, err error) {
 }
 
 func submitAll(tr *kit.Tree, node *kit.Node, steps []kit.SubmitStep, audit bool) error {
-	known := func(id types.BlockID) bool { _, ok := node.CM.State(id); return ok }
 	for si, st := range steps {
-		_, blocks, states, validated := tr.ResolveBatch(st, known)
+		_, blocks, states, validated := tr.ResolveBatch(st, node.ValidatedParent)
 		if len(blocks) == 0 {
 			continue
 		}
@@ -154,9 +153,8 @@ func runC03(c C03Case, cs *kit.CaseStats) error {
 	node.Hooked.AfterApply = hook
 	node.Hooked.AfterRevert = hook
 
-	known := func(id types.BlockID) bool { _, ok := node.CM.State(id); return ok }
 	for si, st := range c.Steps {
-		_, blocks, states, validated := tr.ResolveBatch(st, known)
+		_, blocks, states, validated := tr.ResolveBatch(st, node.ValidatedParent)
 		if len(blocks) == 0 {
 			continue
 		}
@@ -367,10 +365,9 @@ func crashInPlace(tr *kit.Tree, c C03Case, innerName string, cs *kit.CaseStats) 
 	}
 	node.Hooked.AfterApply = hook
 	node.Hooked.AfterRevert = hook
-	known := func(id types.BlockID) bool { _, ok := node.CM.State(id); return ok }
 	crashed := false
 	for _, st := range c.Steps {
-		_, blocks, states, validated := tr.ResolveBatch(st, known)
+		_, blocks, states, validated := tr.ResolveBatch(st, node.ValidatedParent)
 		if len(blocks) == 0 {
 			continue
 		}
